@@ -135,6 +135,21 @@ func c20Mutators(rt *rapid.T) {
 		if d := diffFrames(f, dec); d != "" {
 			rt.Fatalf("after %v the frame does not round-trip: %s\n%s", history, d, canon.Render(f))
 		}
+		// ... also on a stream (the header must announce exactly the body that was written: the same Frame object has been
+		// encoded before, with other parts and another compression setting)
+		src := bytes.NewReader(append(append([]byte{}, enc...), 0xEE, 0xEE))
+		raw, err := codec.DecodeRawFrame(src)
+		if err != nil {
+			rt.Fatalf("after %v the encoded frame, followed by other bytes, does not decode as a raw frame: %v\n%s", history, err, canon.Render(f))
+		}
+		if src.Len() != 2 {
+			rt.Fatalf("after %v the header announces a body of %d bytes but %d were written (%d bytes of the stream left instead of 2)", history, raw.Header.BodyLength, len(enc)-hdrLen(v), src.Len())
+		}
+		if dec2, err := codec.ConvertFromRawFrame(raw); err != nil {
+			rt.Fatalf("after %v the raw frame does not convert: %v", history, err)
+		} else if d := diffFrames(f, dec2); d != "" {
+			rt.Fatalf("after %v the frame does not round-trip through the raw path: %s", history, d)
+		}
 	}
 	if len(setThenClear) > 0 {
 		interesting = true
